@@ -242,6 +242,16 @@ DeleteAbsent(p, s, c, by) ==
 ---------------------------------------------------------------------------
 (* Links *)
 
+\* Named deviation (observed; outside the listed properties): Tag/MultiTag::addReference(DataArray) and
+\* removeReference(DataArray) hand the array's NAME to the backend, which resolves it in the tag's own block.  A handle
+\* of an array of ANOTHER block therefore acts on its namesake in the tag's block when there is one (and is refused /
+\* has no effect otherwise); hasReference(DataArray) compares name and id and so keeps denying the foreign handle.
+Eff(h, s, t, by) ==
+  IF s = "refs" /\ by = "handle" /\ t \in Live(tree)
+  THEN LET c == {x \in Live(tree) : tree[x].kind = "array" /\ BlockOf(tree, x) = BlockOf(tree, h) /\ tree[x].name = tree[t].name}
+       IN IF c # {} THEN CHOOSE x \in c : TRUE ELSE t
+  ELSE t
+
 LinkOk(h, s, t) ==
   /\ t \in Live(tree) /\ tree[t].kind = LinkTargetKind(s)
   /\ BlockOf(tree, t) = BlockOf(tree, h)
@@ -253,17 +263,17 @@ AddLink(h, s, t, by) ==
   /\ \/ t \in Live(tree) /\ tree[t].kind = LinkTargetKind(s)
      \/ t = FOREIGN /\ "Foreign" \in Acts
   /\ by \in {"id", "handle"} /\ (by = "handle" /\ t # FOREIGN => Contains(retained, t))
-  /\ IF ~Writable \/ ~LinkOk(h, s, t) THEN Reject("AddLink", args)
-     ELSE Mutated("AddLink", args, [tree EXCEPT ![h].kids[s] = Append(@, t)], 0)
+  /\ IF ~Writable \/ ~LinkOk(h, s, Eff(h, s, t, by)) THEN Reject("AddLink", args)
+     ELSE Mutated("AddLink", args, [tree EXCEPT ![h].kids[s] = Append(@, Eff(h, s, t, by))], 0)
 
 RemoveLink(h, s, t, by) ==
   LET args == [p |-> h, slot |-> s, n |-> "", t |-> t, by |-> by, v |-> 0] IN
   /\ open /\ Budget /\ h \in Live(tree) /\ s \in LinkSlots(tree[h].kind) /\ s \in LinkSlotsOn
   /\ t \in Live(tree) /\ tree[t].kind = LinkTargetKind(s)
   /\ by \in {"id", "handle"} /\ (by = "handle" => Contains(retained, t))
-  /\ IF ~Writable THEN (IF Contains(Kids(tree, h, s), t) THEN Reject("RemoveLink", args) ELSE FALSE)
-     ELSE IF Contains(Kids(tree, h, s), t)
-       THEN Mutated("RemoveLink", args, [tree EXCEPT ![h].kids[s] = Drop(@, {t})], 0)
+  /\ IF ~Writable THEN (IF Contains(Kids(tree, h, s), Eff(h, s, t, by)) THEN Reject("RemoveLink", args) ELSE FALSE)
+     ELSE IF Contains(Kids(tree, h, s), Eff(h, s, t, by))
+       THEN Mutated("RemoveLink", args, [tree EXCEPT ![h].kids[s] = Drop(@, {Eff(h, s, t, by)})], 0)
        ELSE NoEffect("RemoveLink", args)
 
 \* vector setters (references(vector), sources(vector), group members(vector)): the container is replaced by the given
